@@ -287,6 +287,9 @@ func isTrusted(s *accountant.VerifSnapshot, a string) bool {
 }
 
 func (n *Node) monitors(prev, cur *accountant.VerifSnapshot, opKind string, created *accountant.Vertex) {
+	if !cur.Loaded {
+		return // a node that is not (or not successfully) loaded serves nothing; C14 checks the flag itself
+	}
 	pv, cv := mkView(prev), mkView(cur)
 	w := n.w
 	// ---- C01: newly confirmed spice transfers of non-trusted sealers are covered in their own history
